@@ -169,6 +169,7 @@ func judgeBatch(cs *BatchCase, o *BatchObs) []scen.Finding {
 		for i := 0; i < n; i++ {
 			if o.Attempts[i] == 0 {
 				add("C07", "item-skipped:"+cc, "item %d of %d was never processed (continue mode, c=%d)", i, n, cs.C)
+				add("C02", "batch-item-never-attempted:"+cs.Shape, "batch item %d (continue mode, budget %d): 0 exec attempts, want min(k=%d, N=%d) — every item of a batch gets the attempts a single node run gets, whatever the item is", i, cs.Budget, cs.Items[i].K, cs.Budget)
 				continue
 			}
 			if o.Attempts[i] != wantAtt[i] {
@@ -354,6 +355,15 @@ func judgeBatch(cs *BatchCase, o *BatchObs) []scen.Finding {
 					}
 				}
 				break
+			}
+		}
+		if cs.C <= 1 && itf >= 0 {
+			// sequential / one worker: items are taken in item order, so nothing behind the first failing item is executed at all
+			for j := itf + 1; j < n && j < len(o.Attempts); j++ {
+				if o.Attempts[j] > 0 {
+					add("C09", "executed-behind-failing-item:c01", "stop mode, concurrency %d: item %d failed for good, yet item %d (behind it in item order) was executed — with sequential execution or one worker no item after the first failing one is executed at all (earlier run on the same node: %v)", cs.C, itf, j, cs.Prelude != nil)
+					break
+				}
 			}
 		}
 		if sf >= 0 {
